@@ -1,4 +1,5 @@
 import ModbusVerif.Driver.Wire
+import ModbusVerif.Spec.Request
 /-
   mbmodel: line protocol. One operation per input line, one canonical output line.
   Unknown or malformed lines print `bad-op` (never a default).
@@ -69,6 +70,14 @@ def step (line : String) : String :=
   | "creq" :: kind :: unit :: e :: w :: txn :: op =>
     match cfgOf kind unit e w, u16? txn, parseOp op with
     | some cfg, some t, some o => showReqFrame (o.requestFrame cfg { lastTxn := t, pending := [] })
+    | _, _, _ => "bad-op"
+  | "sreq" :: kind :: unit :: e :: w :: txn :: op =>
+    -- the property oracle of C01: the independent specification of the request encoding
+    match cfgOf kind unit e w, u16? txn, parseOp op with
+    | some cfg, some t, some o =>
+      match Spec.request cfg { lastTxn := t, pending := [] } o with
+      | .ok f => "ok:" ++ hex f
+      | .error err => "err:" ++ errName err
     | _, _, _ => "bad-op"
   | "cex" :: kind :: unit :: e :: w :: txn :: pend :: arr :: ending :: op =>
     match cfgOf kind unit e w, u16? txn, unhex pend, unhex arr, endingOfName ending, parseOp op with
